@@ -52,20 +52,21 @@ RefAtoms(s, withIcode) ==
                                                  /\ \A j \in 1..(k - 1) : ~\E x \in Own(s, cs[j]) : Label(x, withIcode) = l
    IN {CHOOSE x \in Own(s, cs[firstConf(l)]) : Label(x, withIcode) = l : l \in labs}
 (* top_up_from_atoms: a reference atom is copied when its label is missing, unless the residue number of that
-   chain already holds another residue name (res_names keyed by chain, number) *)
+   chain already holds another residue name (res_names keyed by chain, number and - repaired code - insertion code) *)
 RECURSIVE TopUpFrom(_, _, _, _)
 TopUpFrom(S, names, refs, withIcode) ==
    IF refs = {} THEN S
    ELSE LET x == CHOOSE r \in refs : TRUE
-            k == <<x[1][1], x[1][2]>>
+            k == IF withIcode THEN x[1] ELSE <<x[1][1], x[1][2]>>
             has == \E y \in S : Label(y, withIcode) = Label(x, withIcode)
         IN IF has THEN TopUpFrom(S, names, refs \ {x}, withIcode)
            ELSE IF k \in DOMAIN names /\ names[k] # x[3] THEN TopUpFrom(S, names, refs \ {x}, withIcode)
            ELSE TopUpFrom(S \cup {x}, IF k \in DOMAIN names THEN names ELSE names @@ (k :> x[3]), refs \ {x}, withIcode)
 MechTopUp(s, c, withIcode) ==
    LET own == Own(s, c)
-       keys == {<<x[1][1], x[1][2]>> : x \in own}
-       names == [k \in keys |-> (CHOOSE x \in own : <<x[1][1], x[1][2]>> = k)[3]]
+       pos(x) == IF withIcode THEN x[1] ELSE <<x[1][1], x[1][2]>>
+       keys == {pos(x) : x \in own}
+       names == [k \in keys |-> (CHOOSE x \in own : pos(x) = k)[3]]
    IN TopUpFrom(own, names, RefAtoms(s, withIcode), withIcode)
 
 (* ---- averaging ----------------------------------------------------------------------------------- *)
